@@ -259,6 +259,16 @@ pub fn file_name(r: &mut Rng, hostile: u8) -> String {
         "ab",
         "a",
         "sb/sprite.png",
+        "видео",
+        "日a",
+        "背景",
+        "naïve",
+        "é",
+        "ab日",
+        "x.日本",
+        "clip.mpé",
+        "🎵",
+        "a🎵",
     ];
     let mut s = (*r.pick(&base)).to_string();
     if hostile >= 2 && r.chance(1, 8) {
@@ -438,7 +448,7 @@ pub fn color_line(r: &mut Rng, cfg: &Cfg, combo_idx: &mut usize) -> String {
         *combo_idx += 1;
         format!("Combo{combo_idx}")
     } else {
-        ["SliderBorder", "SliderTrackOverride", "MyColour", "Combo", "Comboxyz"][r.below(5)].to_string()
+        ["SliderBorder", "SliderTrackOverride", "MyColour", "Combo", "Comboxyz", "Couleur é", "色", "Comboé"][r.below(8)].to_string()
     };
     let n = if h >= 2 { [3, 3, 4, 2, 5][r.below(5)] } else { [3, 3, 4][r.below(3)] };
     let comps: Vec<String> = (0..n).map(|_| comp(r)).collect();
@@ -465,7 +475,7 @@ pub fn bank_info(r: &mut Rng, h: u8) -> String {
             b(r),
             r.below(3),
             r.below(101),
-            ["a.wav", "", "b c.ogg", "dir/x.wav", "x:y.wav"][r.below(5)]
+            ["a.wav", "", "b c.ogg", "dir/x.wav", "x:y.wav", "音.wav", "é", "日a"][r.below(8)]
         ),
         5 => format!("{}:{}", b(r), b(r)),
         6 => format!("{}:{}:{}", b(r), b(r), r.below(4)),
